@@ -112,6 +112,40 @@ func closeConnAndLog(c io.Closer, log logging.LeveledLogger, msg string, args ..
 	}
 }
 
+type gatherUfragKey struct{}
+
+type gatherURLsKey struct{}
+
+// gatherURLs returns the STUN/TURN URLs captured when the gathering cycle of ctx was started.
+// A gatherer that runs outside a GatherCandidates cycle reads them through the task loop.
+func (a *Agent) gatherURLs(ctx context.Context) []*stun.URI {
+	if urls, ok := ctx.Value(gatherURLsKey{}).([]*stun.URI); ok {
+		return urls
+	}
+
+	var urls []*stun.URI
+	_ = a.loop.Run(a.loop, func(context.Context) { //nolint:contextcheck
+		urls = a.urls
+	})
+
+	return urls
+}
+
+// gatherUfrag returns the local ufrag of the gathering cycle ctx belongs to.
+// A gatherer that runs outside a GatherCandidates cycle reads it through the task loop.
+func (a *Agent) gatherUfrag(ctx context.Context) string {
+	if ufrag, ok := ctx.Value(gatherUfragKey{}).(string); ok {
+		return ufrag
+	}
+
+	var ufrag string
+	_ = a.loop.Run(a.loop, func(context.Context) { //nolint:contextcheck
+		ufrag = a.localUfrag
+	})
+
+	return ufrag
+}
+
 // GatherCandidates initiates the trickle based gathering process.
 func (a *Agent) GatherCandidates() error {
 	var gatherErr error
@@ -128,7 +162,7 @@ func (a *Agent) GatherCandidates() error {
 		}
 
 		a.gatherCandidateCancel() // Cancel previous gathering routine
-		ctx, cancel := context.WithCancel(ctx)
+		ctx, cancel := context.WithCancel(context.WithValue(context.WithValue(ctx, gatherUfragKey{}, a.localUfrag), gatherURLsKey{}, a.urls))
 		a.gatherCandidateCancel = cancel
 		done := make(chan struct{})
 		a.gatherCandidateDone = done
@@ -278,7 +312,7 @@ func (a *Agent) gatherCandidatesInternal(ctx context.Context) {
 		case CandidateTypeRelay:
 			wg.Add(1)
 			go func() {
-				a.gatherCandidatesRelay(ctx, a.urls)
+				a.gatherCandidatesRelay(ctx, a.gatherURLs(ctx))
 				wg.Done()
 			}()
 		case CandidateTypePeerReflexive, CandidateTypeUnspecified:
@@ -295,9 +329,9 @@ func (a *Agent) gatherServerReflexiveCandidates(ctx context.Context, wg *sync.Wa
 		wg.Add(1)
 		go func() {
 			if a.udpMuxSrflx != nil {
-				a.gatherCandidatesSrflxUDPMux(ctx, a.urls, a.networkTypes)
+				a.gatherCandidatesSrflxUDPMux(ctx, a.gatherURLs(ctx), a.networkTypes)
 			} else {
-				a.gatherCandidatesSrflx(ctx, a.urls, a.networkTypes)
+				a.gatherCandidatesSrflx(ctx, a.gatherURLs(ctx), a.networkTypes)
 			}
 			wg.Done()
 		}()
@@ -392,20 +426,20 @@ func (a *Agent) gatherCandidatesLocal(ctx context.Context, networkTypes []Networ
 					// Handle ICE TCP passive mode
 					var muxConns []net.PacketConn
 					if multi, ok := a.tcpMux.(AllConnsGetter); ok {
-						a.log.Debugf("GetAllConns by ufrag: %s", a.localUfrag)
+						a.log.Debugf("GetAllConns by ufrag: %s", a.gatherUfrag(ctx))
 						// Note: this is missing zone for IPv6 by just grabbing the IP slice
-						muxConns, err = multi.GetAllConns(a.localUfrag, mappedIP.Is6(), addr.AsSlice())
+						muxConns, err = multi.GetAllConns(a.gatherUfrag(ctx), mappedIP.Is6(), addr.AsSlice())
 						if err != nil {
-							a.log.Warnf("Failed to get all TCP connections by ufrag: %s %s %s", network, addr, a.localUfrag)
+							a.log.Warnf("Failed to get all TCP connections by ufrag: %s %s %s", network, addr, a.gatherUfrag(ctx))
 
 							continue
 						}
 					} else {
-						a.log.Debugf("GetConn by ufrag: %s", a.localUfrag)
+						a.log.Debugf("GetConn by ufrag: %s", a.gatherUfrag(ctx))
 						// Note: this is missing zone for IPv6 by just grabbing the IP slice
-						conn, err := a.tcpMux.GetConnByUfrag(a.localUfrag, mappedIP.Is6(), addr.AsSlice())
+						conn, err := a.tcpMux.GetConnByUfrag(a.gatherUfrag(ctx), mappedIP.Is6(), addr.AsSlice())
 						if err != nil {
-							a.log.Warnf("Failed to get TCP connections by ufrag: %s %s %s", network, addr, a.localUfrag)
+							a.log.Warnf("Failed to get TCP connections by ufrag: %s %s %s", network, addr, a.gatherUfrag(ctx))
 
 							continue
 						}
@@ -421,7 +455,7 @@ func (a *Agent) gatherCandidatesLocal(ctx context.Context, networkTypes []Networ
 								conn,
 								a.log,
 								"Failed to get port of connection from TCPMux: %s %s %s",
-								network, addr, a.localUfrag,
+								network, addr, a.gatherUfrag(ctx),
 							)
 						}
 					}
@@ -447,7 +481,7 @@ func (a *Agent) gatherCandidatesLocal(ctx context.Context, networkTypes []Networ
 					if udpConn, ok := conn.LocalAddr().(*net.UDPAddr); ok {
 						conns = append(conns, connAndPort{conn, udpConn.Port})
 					} else {
-						a.log.Warnf("Failed to get port of UDPAddr from ListenUDPInPortRange: %s %s %s", network, addr, a.localUfrag)
+						a.log.Warnf("Failed to get port of UDPAddr from ListenUDPInPortRange: %s %s %s", network, addr, a.gatherUfrag(ctx))
 
 						continue
 					}
@@ -581,7 +615,7 @@ func (a *Agent) gatherCandidatesLocalUDPMux(ctx context.Context) error { //nolin
 				continue
 			}
 
-			conn, err := a.udpMux.GetConn(a.localUfrag, udpAddr)
+			conn, err := a.udpMux.GetConn(a.gatherUfrag(ctx), udpAddr)
 			if err != nil {
 				return err
 			}
@@ -772,7 +806,7 @@ func (a *Agent) gatherCandidatesSrflxUDPMux(ctx context.Context, urls []*stun.UR
 						return
 					}
 
-					conn, err := a.udpMuxSrflx.GetConnForURL(a.localUfrag, url.String(), localAddr)
+					conn, err := a.udpMuxSrflx.GetConnForURL(a.gatherUfrag(ctx), url.String(), localAddr)
 					if err != nil {
 						a.log.Warnf("Failed to find connection in UDPMuxSrflx %s %s: %v", network, url, err)
 
